@@ -40,13 +40,22 @@ class C03(core.Property):
     lake_targets = ["HappyProofs.C03.Props", "drv-c03"]
     audit_imports = ["HappyProofs.C03.Props"]
     lean_files = ["HappyModel/C03/*.lean", "HappyProofs/C03/*.lean", "HappyModel/Proto.lean", "Driver/C03.lean",
-                  "HappyModel/C01/Engine.lean", "HappyProofs/C01/Lemmas.lean"]
+                  "HappyModel/C01/Engine.lean", "HappyProofs/C01/Lemmas.lean", "HappyProofs/C01/Inv.lean",
+                  "HappyModel/C05/Engine.lean", "HappyModel/C05/Parallel.lean"]
     theorems = [
         "HappyModel.C03.run_index_shift",
         "HappyModel.C03.run_id_shift_const",
         "HappyModel.C03.observable_log_counter_independent",
         "HappyModel.C03.run_ignores_foreign_state",
         "HappyModel.C03.judge_none_iff_holds",
+        "HappyModel.C03.run_independent_of_heap_layout",
+        "HappyModel.C03.log_independent_of_heap_layout",
+        "HappyModel.C03.execInOrder_eq_execAll",
+        "HappyModel.C03.exchange_order_independent_of_completion",
+        "HappyModel.C03.oneWindow_order_independent_of_completion",
+        "HappyModel.C03.exchangeStaged_declaration_order",
+        "HappyModel.C03.staged_exchange_depends_on_completion",
+        "HappyModel.C03.staged_delivery_order_depends_on_completion",
     ]
     partial_theorems = {
         "HappyModel.C03.run_index_shift":
@@ -58,7 +67,9 @@ class C03(core.Property):
         "HappyModel.C03.run_ignores_foreign_state":
             "holds by construction of the model (run is a function of its arguments); stated for the record",
     }
-    hypotheses = ["Equivariant mc g: the handler commutes with renaming event ids by g (it may store, return and cancel ids, not compute with them)",
+    hypotheses = ["Inv s (layout theorems): the C01 engine invariant, in particular distinct creation indices in the heap",
+                  "IsCompletionOrder order n (exchange theorems): the completion order names every partition slot exactly once",
+                  "Equivariant mc g: the handler commutes with renaming event ids by g (it may store, return and cancel ids, not compute with them)",
                   "StrictMono g on ids; g maps the fresh region nextId+j to nextId'+j"]
     variants = ["current"]
     quick_cases = 14          # × BATCH scenarios
